@@ -43,8 +43,35 @@ import (
 
 var uscLogShapes = []string{"event", "anon,event", "foreign,event", "anon", "foreign", "", "event-short-data", "anon,anon,event", "foreign,anon,event", "event,anon"}
 
-func uscScenario(t *testing.T, run *emit.Run, logs string, nv int) {
-	replay := map[string]any{"kind": "usc-receipt", "logs": logs, "nvals": nv}
+// sigEncodings: how validator i hands in its signature (validator 0 always in the plain 65-byte form):
+//   v01      [R || S || V], V in {0, 1}            the form the chain stores and BuildCompassConsensus reads
+//   v2728    V in {27, 28}
+//   compact  64 bytes [R || yParityAndS] (EIP-2098)
+//   short    63 bytes; long: 66 bytes; empty
+var sigEncodings = []string{"v01", "v2728", "compact", "short", "long", "empty"}
+
+func encodeSig(sig []byte, enc string) []byte {
+	out := append([]byte{}, sig...)
+	switch enc {
+	case "v2728":
+		out[64] += 27
+	case "compact":
+		out = out[:64]
+		if sig[64] == 1 {
+			out[32] |= 0x80
+		}
+	case "short":
+		out = out[:63]
+	case "long":
+		out = append(out, 0)
+	case "empty":
+		out = nil
+	}
+	return out
+}
+
+func uscScenario(t *testing.T, run *emit.Run, logs string, nv int, encs ...string) {
+	replay := map[string]any{"kind": "usc-receipt", "logs": logs, "nvals": nv, "sigs": encs}
 	const chain = "eth-main"
 	f := helper.InitFixture(ginkgo.GinkgoT())
 	ctx := f.Ctx.WithBlockHeight(5)
@@ -141,15 +168,36 @@ func uscScenario(t *testing.T, run *emit.Run, logs string, nv int) {
 	for i, op := range ops {
 		sig, err := crypto.Sign(hash, keys[i])
 		must(err)
-		must(f.ConsensusKeeper.AddMessageSignature(ctx, op, []*consensustypes.ConsensusMessageSignature{{Id: id, QueueTypeName: q, Signature: sig,
-			SignedByAddress: crypto.PubkeyToAddress(keys[i].PublicKey).Hex()}}))
+		enc := "v01"
+		if i > 0 && i-1 < len(encs) {
+			enc = encs[i-1]
+		}
+		out, what := guard(func() error {
+			return f.ConsensusKeeper.AddMessageSignature(ctx, op, []*consensustypes.ConsensusMessageSignature{{Id: id, QueueTypeName: q, Signature: encodeSig(sig, enc),
+				SignedByAddress: crypto.PubkeyToAddress(keys[i].PublicKey).Hex()}})
+		})
+		if out == 2 {
+			run.Violate("C09:add-signature-panic", fmt.Sprintf("AddMessageSignature (%s) panicked: %s", enc, what), replay)
+		}
+		if enc == "v01" && out != 0 {
+			t.Fatalf("plain signature refused: %s", what)
+		}
+		run.Count("usc-signature", enc+map[int]string{0: ":accepted", 1: ":refused", 2: ":panic"}[out])
 	}
 	qm, em = get()
 	usc := em.GetUploadUserSmartContract()
 	valset := evmkeeper.VerifC07TransformSnapshot(snap, chain)
 	padded := [32]byte(append(make([]byte, 32-len(usc.SenderAddress)), usc.SenderAddress...))
+	// only what has the stored form can be packed (a tree that stores other forms fails in BuildCompassConsensus:
+	// then any call data will do, the end-blocker meets the same stored signatures)
+	var cc evmtypes.CompassConsensus
+	packable := true
+	if o, _ := guard(func() error { cc = evmtypes.BuildCompassConsensus(&valset, qm.GetSignData()); return nil }); o != 0 {
+		packable = false
+		cc = evmtypes.BuildCompassConsensus(&valset, qm.GetSignData()[:1])
+	}
 	data, err := compassABI.Pack("deploy_contract",
-		evmtypes.BuildCompassConsensus(&valset, qm.GetSignData()),
+		cc,
 		common.HexToAddress(usc.GetDeployerAddress()), usc.GetBytecode(),
 		evmtypes.FeeArgs{RelayerFee: new(big.Int).SetUint64(usc.Fees.RelayerFee), CommunityFee: new(big.Int).SetUint64(usc.Fees.CommunityFee),
 			SecurityFee: new(big.Int).SetUint64(usc.Fees.SecurityFee), FeePayerPalomaAddress: padded},
@@ -189,8 +237,10 @@ func uscScenario(t *testing.T, run *emit.Run, logs string, nv int) {
 		must(f.ConsensusKeeper.AddMessageEvidence(ctx, op, &consensustypes.MsgAddEvidence{Proof: pr, MessageID: id, QueueTypeName: q}))
 	}
 	// the transaction must really match: otherwise the log scan is never reached and this scenario checks nothing
-	if err := usc.VerifyAgainstTX(ctx.WithBlockHeight(7), tx, qm, &valset, sc, em.AssigneeRemoteAddress); err != nil {
-		t.Fatalf("the constructed transaction does not match the message: %v", err)
+	if packable {
+		if err := usc.VerifyAgainstTX(ctx.WithBlockHeight(7), tx, qm, &valset, sc, em.AssigneeRemoteAddress); err != nil {
+			t.Fatalf("the constructed transaction does not match the message: %v", err)
+		}
 	}
 	block(7)
 	block(8)
